@@ -33,6 +33,7 @@ var checks = map[string]struct {
 	"C03": {props.C03, "a case is one expression (token sequence rendered to source with a seeded layout) parsed and evaluated by the real interpreter: every pair of the 19 binary operators with prefix operators and parentheses at each position (operands by seeded choice from typed pools incl. wrong kinds), assignments, and random deeper expressions; distinct = distinct source text; non-trivial = more than 3 tokens"},
 	"C08": {props.C08, "a case is one parseable source text run through parse -> PrettyPrint -> parse -> PrettyPrint on the real code (every operator under every other on either side with prefix operators above and below, statement corpus with comments / strings / containers at the multi-line thresholds, random expressions with seeded layouts, strings over an alphabet of quotes, escapes, newlines and {{ }}), plus files rewritten by tool.FormatFiles; distinct = distinct source; non-trivial = longer than 8 bytes"},
 	"C04": {props.C04, "a case is one generated program (nested if/elif/else, guard / range / list / map loops, functions, try with every combination of except clauses, otherwise and finally; exits by fallthrough, break, continue, return, raise of several types and a runtime error at random positions) evaluated by the real interpreter; distinct = distinct source; non-trivial = more than 4 lines"},
+	"C05": {props.C05, "a case is one generated program over a small set of names (global / block / function scopes, let, assignments to defined and undefined names, closures incl. returned counter closures, parameter defaults, argument counts below / equal / above, bounded recursion, list and map literals with number and string keys, nested container paths, aliases, reads after writes through dot and bracket access) evaluated by the real interpreter; distinct = distinct source; non-trivial = more than 6 lines"},
 	"C09": {props.C09, "a case is one execution of the real thread pool under one schedule (release sequence of the gate scheduler, or a free run); distinct = distinct (scenario, schedule); non-trivial = more than 3 scheduling decisions"},
 	"C10": {props.C10, "a case is one monitor history (model behaviour replayed / random history recorded) or one execution of a cascade program on the real processor under one schedule; distinct = distinct history or (program, schedule); non-trivial = more than 3 operations / more than 8 property-level events"},
 	"C11": {props.C11, "a case is one run of 2..80 overlapping sink invocations (events with payload-dictated outcome) under one schedule (followed counterexample, random gate schedule, or free run on 2..16 workers); distinct = distinct (events, schedule); non-trivial = at least two invocations"},
